@@ -262,6 +262,13 @@ pub fn gen(tier: &str, seed: u64, outdir: &str) {
         a[1] *= 3.0;
         emit_all(&mut cs, &mut r, &a, n, "tiny-scale-asymmetric");
     }
+    for n in 2..=4usize {
+        let mut a = gen_matrix(&mut r, n, 7); for x in a.iter_mut() { *x *= 2f64.powi(-60); }
+        if a[1] == 0.0 { a[1] = 2f64.powi(-61); } a[n] = 0.0;
+        emit_all(&mut cs, &mut r, &a, n, "zero-vs-tiny-asymmetric");
+        let mut a = gen_matrix(&mut r, n, 7); a[1] = 1e-17; a[n] = 0.0;
+        emit_all(&mut cs, &mut r, &a, n, "zero-vs-tiny-asymmetric");
+    }
     // an infinite diagonal entry passes the pivot test d > 0 (outside the property's quantifier: pinned for the model only)
     emit_all(&mut cs, &mut r, &[f64::INFINITY], 1, "infinite-diagonal");
     emit_all(&mut cs, &mut r, &[f64::INFINITY, 1.0, 1.0, 1.0], 2, "infinite-diagonal");
@@ -824,6 +831,22 @@ fn oracle_sweep(out: &mut Vec<Finding>, tried: &mut u64, r: &mut Rng, reps: usiz
                 *tried += 3; crumb(&format!("rejection: cholesky / try_cholesky / Matrix::cholesky of a non-symmetric matrix n={} a={}", n, json_floats(&a2)));
                 if catch(|| cholesky(&a2)).is_ok() || catch(|| try_cholesky(&a2)).is_ok() { out.push(Finding { class: "cholesky:accepts-nonsymmetric-input".into(), what: format!("cholesky or try_cholesky returned for a matrix with a[{}][{}] != a[{}][{}]", i, j, j, i), input: format!("a={}", json_floats(&a2)) }); }
                 if catch(|| mk(&a2, n, n).cholesky()).is_ok() { out.push(Finding { class: "Matrix::cholesky:accepts-nonsymmetric-input".into(), what: format!("Matrix::cholesky returned a factor for a matrix with a[{}][{}] != a[{}][{}]", i, j, j, i), input: format!("a={}", json_floats(&a2)) }); }
+            }
+        }
+        // ... and asymmetry of the kind an ABSOLUTE comparison cannot see: one entry of a mirrored pair exactly zero, the other below
+        //     machine epsilon (a whole matrix scaled by 2^-60, or a single entry 1e-17 beside O(1) entries); seeded change C11-10
+        //     routed is_symmetric through close_to, whose relative difference degenerates to |y| when the other entry is 0
+        if n >= 2 {
+            for variant in 0..2 {
+                let i = r.below(n as u64 - 1) as usize; let j = i + 1 + r.below((n - i - 1) as u64) as usize;
+                let mut a3 = gen_matrix(r, n, 8);
+                if variant == 0 { for v in a3.iter_mut() { *v *= 2f64.powi(-60); } if a3[i * n + j] == 0.0 { a3[i * n + j] = 2f64.powi(-61); } a3[j * n + i] = 0.0; }
+                else { a3[i * n + j] = 1e-17; a3[j * n + i] = 0.0; }
+                *tried += 3; crumb(&format!("rejection: zero-vs-tiny asymmetry n={} a={}", n, json_floats(&a3)));
+                if catch(|| cholesky(&a3)).is_ok() || catch(|| try_cholesky(&a3)).is_ok() { out.push(Finding { class: "cholesky:accepts-nonsymmetric-input".into(), what: format!("cholesky or try_cholesky returned for a matrix with a[{}][{}] = {:e} and a[{}][{}] = 0", i, j, a3[i * n + j], j, i), input: format!("n={} a={}", n, json_floats(&a3)) }); }
+                if catch(|| mk(&a3, n, n).cholesky()).is_ok() { out.push(Finding { class: "Matrix::cholesky:accepts-nonsymmetric-input".into(), what: format!("Matrix::cholesky returned a factor for a matrix with a[{}][{}] = {:e} and a[{}][{}] = 0", i, j, a3[i * n + j], j, i), input: format!("n={} a={}", n, json_floats(&a3)) }); }
+                *tried += 1;
+                if catch(|| mk(&a3, n, n).is_symmetric()) == Ok(true) { out.push(Finding { class: "Matrix::is_symmetric:true-for-nonsymmetric".into(), what: format!("is_symmetric is true although a[{}][{}] = {:e} and a[{}][{}] = 0", i, j, a3[i * n + j], j, i), input: format!("n={} a={}", n, json_floats(&a3)) }); }
             }
         }
         let sq = { let mut t = gen_matrix(r, n, 12); for i in 0..n { t[i * n + i] = 2.0; } t };
